@@ -17,4 +17,19 @@ PROPS = {
         "explanation": "Contracts on DhtKey::distance, KademliaRoutingTable::{get_bucket_index,get_bucket_index_for_key,add_node,remove_node,find_closest_nodes}.",
         "jobs": {"quick": 6, "thorough": 6},
     },
+    "C12": {
+        "verus_units": ["seq"],
+        "trusted": COMMON_TRUSTED,
+        "assumptions": [
+            "sequential semantics per critical section: validate_sequence and batch_update hold one std::sync::RwLock write guard around validate+apply; that the lock serialises tasks is the contract of std::sync::RwLock (assumed)",
+            "clock below 2^48 seconds; fewer than 2^64 accepted numbers per peer",
+        ],
+        "clauses_not_decided": [
+            "concurrent submitters beyond the one-lock argument",
+            "reload from disk (load_counters/sync_counters: tokio fs + postcard)",
+            "the async wrappers validate_sequence/batch_update themselves (tokio Mutex for stats; HashMap entry)",
+        ],
+        "explanation": "Verus proves the step contracts of validate_sequence_internal/apply_sequence_update on the verbatim text for unbounded history, plus induction lemmas (accepted numbers are 1,2,3..; at most once). Kani proves the callee contract Verus assumes and compositions.",
+        "jobs": {"quick": 6, "thorough": 6},
+    },
 }
